@@ -169,3 +169,153 @@ func driveBigAppend(s *shardSet, rng *rand.Rand, thorough bool) {
 		}
 	}
 }
+
+// wideChannels: channel counts around word sizes and small index types (a per-channel bit set, an 8-bit channel
+// index, a fixed-size scratch array ... must behave like two channels).
+var wideChannels = []int{9, 17, 33, 63, 64, 65, 66, 127, 129, 255, 256, 257, 1000}
+
+// driveWideFrames: buffers with many channels and two or three frames; every operation that iterates over channels.
+func driveWideFrames(s *shardSet, rng *rand.Rand, thorough bool) {
+	for i, ch := range wideChannels {
+		if !thorough && !(ch == 65 || ch == 257 || rng.Intn(3) == 0) {
+			continue
+		}
+		ty := BuiltinTypes[(i*4+rng.Intn(13))%13]
+		kt := KindOf(ty)
+		w := s.Next()
+		w.Reset()
+		w.Alloc(ty, ch, 2, 3)
+		w.Slice(0, 1, 3) // window over frames 1..2
+		rows := make([][]int64, ch)
+		nils := make([]bool, ch)
+		lens := make([]int, ch)
+		for c := range rows {
+			rows[c] = w.stamps(2 - (c%5)/4)
+			lens[c] = 1 + c%3
+			if c%7 == 6 {
+				nils[c] = true
+			}
+		}
+		w.WriteStriped(0, kt, rows, nils)
+		w.ReadStriped(0, kt, lens, nils)
+		w.ReadStriped(1, kt, lens, nils)
+		w.Write(1, kt, w.stamps(ch+3))
+		w.Read(0, kt, 2*ch+1)
+		for _, c := range []int{0, 7, 8, 31, 32, 62, 63, 64, 65, 127, 128, 254, 255, 256, ch - 1} {
+			if c < ch {
+				w.ChanSet(0, c, 1, w.NextStamp())
+				w.ChanSample(1, c, 0)
+				w.ChanIndex(0, c, 1, c)
+			}
+		}
+		for k := 0; k < 3; k++ {
+			w.AppendSample(0, w.NextStamp())
+		}
+		w.Alloc(ty, ch, 1, 1)
+		src := len(w.Views) - 1
+		w.Write(src, kt, w.stamps(ch))
+		w.Append(1, src) // window is full: moves
+		w.Alloc(ty, ch, 0, 4)
+		d := len(w.Views) - 1
+		w.Append(d, 0)
+		w.Append(d, src)
+	}
+}
+
+// ConvertBig: one conversion between two standalone buffers that are too large to be logged in full. The source
+// holds a pattern of period p whose values are spread over its format; the destination starts dirty (period 27).
+// The harness only COMPRESSES the outcome (it states no expectation): the first min(p, n) destination samples, the
+// first position < n whose result differs from the result at the same phase of the pattern (-1: none), the first
+// position >= n that no longer holds its dirty value (-1), the first source position that changed (-1), and the
+// returned count. SignalTrace decides: count = min frames, no such positions, results are a function of the source
+// value.
+func (w *World) ConvertBig(fn, sty, dty string, ch, ns, nd, p int) {
+	src, dst := NewView(sty, allocator(ch, ns, ns)), NewView(dty, allocator(ch, nd, nd))
+	const q = 27
+	if isFloatTy(sty) {
+		fs := make([]float64, ch*ns)
+		for i := range fs {
+			fs[i] = float64(i%p)/float64(p)*2.5 - 1.25 // reaches beyond [-1, 1] on both sides
+		}
+		src.WriteF64(fs)
+	} else {
+		b := uint(kindBits(sty) - 8)
+		sv := make([]int64, ch*ns)
+		for i := range sv {
+			k := int64(i % p)
+			if kindClass(KindOf(sty)) == "Signed" {
+				k -= int64(p / 2)
+			}
+			sv[i] = k << b
+		}
+		src.Write(KindOf(sty), sv)
+	}
+	dv := make([]int64, ch*nd)
+	for i := range dv {
+		dv[i] = int64(101 + i%q)
+	}
+	dst.Write(KindOf(dty), dv)
+	before, _ := src.Data()
+	cnt := -1
+	res := run(func() { cnt = Convert(fn, src, dst) })
+	allocs := lastAllocs // (measuring mode only: mallocs during the library call; -1 otherwise)
+	got, _ := dst.Data()
+	after, _ := src.Data()
+	n := len(before)
+	if len(got) < n {
+		n = len(got)
+	}
+	badP, badT, badS := -1, -1, -1
+	for i := 0; i < n; i++ {
+		if got[i] != got[i%p] {
+			badP = i
+			break
+		}
+	}
+	for i := n; i < len(got); i++ {
+		if got[i] != dv[i] {
+			badT = i
+			break
+		}
+	}
+	for i := range before {
+		if after[i] != before[i] {
+			badS = i
+			break
+		}
+	}
+	k := p
+	if n < k {
+		k = n
+	}
+	saved := w.NoObs
+	w.NoObs = true // standalone buffers: the world's views are not involved
+	w.emit(&Event{Op: "ConvertBig", Fn: fn, Ty: sty + ">" + dty, Args: []int{ch, ns, nd, p}, In: append([]int64{}, before[:k]...),
+		Vals: append([]int64{}, got[:k]...), Lens: []int{badP, badT, badS}, Res: res, Cnt: cnt, Allocs: allocs})
+	w.NoObs = saved
+}
+
+// driveConvertBig: every conversion family once at 2^17 + a few samples (both "destination longer" and "destination
+// shorter"), two families at 2^20 + a few.
+func driveConvertBig(s *shardSet, rng *rand.Rand, thorough bool) {
+	k := 0
+	for _, f := range ConvFns {
+		reps := 1
+		if thorough {
+			reps = 4
+		}
+		for r := 0; r < reps; r++ {
+			k++
+			sty, dty := f.Src[rng.Intn(len(f.Src))], f.Dst[rng.Intn(len(f.Dst))]
+			ch := 1 + rng.Intn(3)
+			fr := (1<<17)/ch + 1 + rng.Intn(3)
+			if k%4 == 0 || (thorough && r == 3) {
+				fr = (1<<20)/ch + 1 + rng.Intn(3)
+			}
+			w := s.Next()
+			w.Reset()
+			w.ConvertBig(f.Name, sty, dty, ch, fr, fr+1+rng.Intn(2), 97)
+			w.ConvertBig(f.Name, sty, dty, ch, fr+2, fr, 89)
+		}
+	}
+}
